@@ -769,6 +769,110 @@ theorem encodeMsgs_roundtrip (tsKnown : Nat → Bool) (o : Opts) (ha : o.arch = 
     · rw [dataOf_append, hpre]
       exact AllMatch.cons hmatch hall
 
+/-! ### what the repair leaves unchanged: valid, unique, non-decreasing timestamps -/
+
+/-- `compressTimestampIntoHeader` of the pinned tree (before the repair): reference only -/
+def compressTsOld (arch tsRef : Nat) (m : WMsg) : Nat × Option Nat :=
+  let ts := tsOf arch m
+  if ts == u32Invalid then (tsRef, none)
+  else if ts < dateTimeMin then (tsRef, none)
+  else if (ts + 4294967296 - tsRef) % 4294967296 > 31 then (ts, none)
+  else (tsRef, some (ts % 32))
+
+/-- `encodeMessage` of the pinned tree -/
+def encodeMsgOld (o : Opts) (s : Lru × Nat) (m : WMsg) : (Lru × Nat) × Bytes :=
+  let (tsRef', off) := if o.compress then compressTsOld o.arch s.2 m else (s.2, none)
+  let m' : WMsg := match off with
+    | some _ => { m with fields := removeFirst tsFieldNum m.fields }
+    | none => m
+  let db := defBytes o.arch m'
+  let (lru', i, isNew) := s.1.put db
+  let hdr := match off with
+    | some t => (0x80 ||| t) ||| ((i <<< 5) % 256)
+    | none => i
+  ((lru', tsRef'), (if isNew then defRecord o.arch i m' else []) ++ (hdr :: payload m'))
+
+def encodeMsgsOld (o : Opts) : Lru × Nat → List WMsg → Bytes
+  | _, [] => []
+  | s, m :: ms => let (s', out) := encodeMsgOld o s m; out ++ encodeMsgsOld o s' ms
+
+/-- a message has no field 253, or exactly one: a `uint32` value (base type uint32/uint32z) that is a valid date-time -/
+def TsOK (arch : Nat) (m : WMsg) : Prop :=
+  noTs m.fields ∨ ∃ pre f post v, m.fields = pre ++ f :: post ∧ noTs pre ∧ noTs post ∧ f.num = 253 ∧ f.tag = 7 ∧
+    (f.bt = 0x86 ∨ f.bt = 0x8C) ∧ u32Of arch f.data = some v ∧ dateTimeMin ≤ v ∧ v < u32Invalid
+
+/-- timestamps are valid date-times, at most one per message, and never go backwards -/
+def TsMono (arch : Nat) : Nat → List WMsg → Prop
+  | _, [] => True
+  | lo, m :: ms => TsOK arch m ∧ (tsOf arch m ≠ u32Invalid → lo ≤ tsOf arch m) ∧
+      TsMono arch (if tsOf arch m = u32Invalid then lo else tsOf arch m) ms
+
+theorem encTsOf_noTs (arch : Nat) (m : WMsg) (h : noTs m.fields) : encTsOf arch m = u32Invalid := by
+  simp [encTsOf, find_noTs _ h]
+
+theorem step_conservative (o : Opts) (e : EncState) (lo : Nat) (m : WMsg)
+    (hok : TsOK o.arch m) (hlo : tsOf o.arch m ≠ u32Invalid → lo ≤ tsOf o.arch m)
+    (hinv : o.compress = true → e.tsLast = lo ∧ e.tsRef ≤ lo ∧ lo - e.tsRef ≤ 31) :
+    (encodeMsg o e m).2 = (encodeMsgOld o (e.lru, e.tsRef) m).2 ∧
+    (encodeMsg o e m).1.lru = (encodeMsgOld o (e.lru, e.tsRef) m).1.1 ∧
+    (encodeMsg o e m).1.tsRef = (encodeMsgOld o (e.lru, e.tsRef) m).1.2 ∧
+    (o.compress = true →
+      let lo' := if tsOf o.arch m = u32Invalid then lo else tsOf o.arch m
+      (encodeMsg o e m).1.tsLast = lo' ∧ (encodeMsg o e m).1.tsRef ≤ lo' ∧ lo' - (encodeMsg o e m).1.tsRef ≤ 31) := by
+  by_cases hc : o.compress = true
+  · obtain ⟨hl, hr, hn⟩ := hinv hc
+    rcases hok with hno | ⟨pre, f, post, v, hf, hpre, hpost, hnum, htag, hbt, hv, hmin, hmax⟩
+    · have h1 := tsOf_noTs o.arch m hno
+      have h2 := encTsOf_noTs o.arch m hno
+      have h3 := trackLast_noTs o.arch lo m.fields hno
+      simp [encodeMsg, encodeMsgOld, hc, compressTs, compressTsOld, h1, h2, h3, hl, hr, hn]
+    · have hval : tsOf o.arch m = v := tsOf_ts o.arch m pre post f v hf hpre hnum htag hv
+      have hclean : cleanTs o.arch f = some v := by
+        rcases hbt with h | h <;> simp [cleanTs, htag, tagUint32, h, hv]
+      have henc : encTsOf o.arch m = v := by
+        simp [encTsOf, hf, find_ts pre post f hpre hnum, hclean]
+      have hlast : trackLast o.arch e.tsLast m.fields = v := by
+        rw [hf, trackLast_append, trackLast_noTs _ _ _ hpre]
+        have : trackLast o.arch e.tsLast (f :: post) = trackLast o.arch v post := by
+          simp [trackLast, hnum, tsFieldNum, hclean]
+        rw [this, trackLast_noTs _ _ _ hpost]
+      have hne : (v == u32Invalid) = false := by simp [u32Invalid] at hmax ⊢; omega
+      have hne' : v ≠ u32Invalid := by simp [u32Invalid] at hmax ⊢; omega
+      have hge : ¬ v < dateTimeMin := by omega
+      have hlov : lo ≤ v := by have := hlo (by rw [hval]; exact hne'); rwa [hval] at this
+      have hv32 : v < 4294967296 := by simp [u32Invalid] at hmax; omega
+      have hs1 : (v + 4294967296 - e.tsRef) % 4294967296 = v - e.tsRef := by omega
+      have hs2 : (v + 4294967296 - e.tsLast) % 4294967296 = v - lo := by rw [hl]; omega
+      by_cases hroll : v - e.tsRef > 31
+      · have hct : compressTs o.arch e.tsRef e.tsLast m = (v, v, none) := by
+          simp [compressTs, henc, hlast, hne, hge, hs1, hs2, hroll]
+        have hco : compressTsOld o.arch e.tsRef m = (v, none) := by
+          simp [compressTsOld, hval, hne, hge, hs1, hroll]
+        simp [encodeMsg, encodeMsgOld, hc, hct, hco, hval, hne']
+      · have hnear : ¬ v - lo > 31 := by omega
+        have hct : compressTs o.arch e.tsRef e.tsLast m = (e.tsRef, v, some (v % 32)) := by
+          simp [compressTs, henc, hlast, hne, hge, hs1, hs2, hroll, hnear]
+        have hco : compressTsOld o.arch e.tsRef m = (e.tsRef, some (v % 32)) := by
+          simp [compressTsOld, hval, hne, hge, hs1, hroll]
+        simp [encodeMsg, encodeMsgOld, hc, hct, hco, hval, hne']
+        omega
+  · have hc' : o.compress = false := by simpa using hc
+    simp [encodeMsg, encodeMsgOld, hc']
+
+theorem TsMono.cons_none {arch lo : Nat} {m : WMsg} {ms : List WMsg} (h : noTs m.fields) (hr : TsMono arch lo ms) :
+    TsMono arch lo (m :: ms) := by
+  have := tsOf_noTs arch m h
+  exact ⟨Or.inl h, fun hne => absurd this hne, by simpa [this] using hr⟩
+
+theorem TsMono.cons_ts {arch lo : Nat} {m : WMsg} {ms : List WMsg} (pre post : List WField) (f : WField) (v : Nat)
+    (hm : m.fields = pre ++ f :: post) (h1 : noTs pre) (h2 : noTs post) (hnum : f.num = 253) (htag : f.tag = 7)
+    (hbt : f.bt = 0x86 ∨ f.bt = 0x8C) (hv : u32Of arch f.data = some v) (hmin : dateTimeMin ≤ v) (hmax : v < u32Invalid)
+    (hlo : lo ≤ v) (hr : TsMono arch v ms) : TsMono arch lo (m :: ms) := by
+  have hval := tsOf_ts arch m pre post f v hm h1 hnum htag hv
+  have hne : v ≠ u32Invalid := Nat.ne_of_lt hmax
+  exact ⟨Or.inr ⟨pre, f, post, v, hm, h1, h2, hnum, htag, hbt, hv, hmin, hmax⟩, fun _ => by rw [hval]; exact hlo,
+    by rw [hval]; simpa [hne] using hr⟩
+
 /-! ### file header, file CRC, chained files -/
 open Fit.Crc in
 def b12 (h : Hdr) (ds : Nat) : Bytes := [h.size, h.protoVer] ++ le16 h.profileVer ++ le32 ds ++ [0x2E, 0x46, 0x49, 0x54]
